@@ -836,5 +836,8 @@ PROPS["C18"]["explanation"] += " (CHUNKFORMS) options_get_info accepts both spel
 PROPS["C19"]["rules"] = PROPS["C19"]["rules"] + [rules_tools.rule_name_table_matches_codes, rules_tools.rule_lone_vdata_listed]
 PROPS["C19"]["explanation"] += " (NAMECODE) the words of a table whose index is a code stand at the value of their like-named code constant. (LONEVS) hdiff's Vdata listing skips a reserved class only for an empty class."
 
+PROPS["C07"]["rules"] = PROPS["C07"]["rules"] + [rules_loops.rule_single_field_stride]
+PROPS["C07"]["explanation"] += " (ONEFIELD) the user-record size VSread's piece-wise loop advances by has a definition that does not depend on the read list, like its single-field arm."
+
 NOT_APPLICABLE = {}
 
